@@ -1,5 +1,6 @@
 //! C04 — quantifiers eliminate exactly the listed variables.
 
+use crate::closure::{check_eval, discover_eval, index_lists, replay_eval, EvOp, Oracle};
 use crate::enumerate::{lists_upto, Alpha, Gen};
 use crate::refl::{self, depends_tt, exists_tt, forall_tt, Ast, Bin};
 use crate::robdd;
@@ -13,7 +14,7 @@ use std::rc::Rc;
 pub static ENGINE: Engine = Engine {
     prop: "C04",
     level: "exploration",
-    rule: "every function f over k ordered variables with gaps (k=3 quick: 256, k=4 thorough: 65536; operands are interned canonical diagrams) x every variable list V of length <= 3 (with repeats) over the support variables plus variables above, between and below the support x {exists, all, exists_impl}: truth table of the result = brute-force quantification; no node of the result tests a member of V; result identical (==) for every reordering / de-duplication of V (compared with the sorted duplicate-free list); V empty or disjoint from the support => result == f; all(V,f) == not(exists(V,not f)). Text level: every AST <= N nodes over a quantifier alphabet (lists incl. empty, repeated, trailing comma, any/all spellings, names reused bound and free) through the real parser+evaluator vs the reference. distinct = distinct (f, V, operation) + distinct formula texts",
+    rule: "every function f over k ordered variables with gaps (k=3: 256, also as diagrams never interned in the operating environment; k=4: 65536; operands are interned canonical diagrams) x every variable list V of length <= 3 (with repeats) over the support variables plus variables above, between and below the support x {exists, all, exists_impl}: truth table of the result = brute-force quantification; no node of the result tests a member of V; result identical (==) for every reordering / de-duplication of V (compared with the sorted duplicate-free list); V empty or disjoint from the support => result == f; all(V,f) == not(exists(V,not f)). Text level: the language's quantifier node on every function of 2 and 3 named variables x every list <= 3 through the real evaluator; every AST <= N nodes over a quantifier alphabet (lists incl. empty, repeated, trailing comma, any/all spellings, names reused bound and free, quantifiers inside lfp/gfp bodies) through the real parser+evaluator vs the reference. distinct = distinct (f, V, operation) + distinct formula texts",
     assumptions: &["truth tables by an independent walker; reference quantification by cofactor enumeration", "k <= 4 variables, |V| <= 3, AST size bound"],
     max_shards: 64,
     run,
@@ -35,14 +36,14 @@ fn setup(k: usize) -> Setup {
     }
 }
 
-fn case(k: usize, tt: u64, vs: &[usize]) -> Value {
-    json!({"part": "api", "k": k, "f": tt, "vars": vs})
+fn case(k: usize, tt: u64, vs: &[usize], foreign: bool) -> Value {
+    json!({"part": "api", "k": k, "f": tt, "vars": vs, "foreign": foreign})
 }
 
-fn check_one(ctx: &mut Ctx, sp: &Space<usize>, k: usize, tt: u64, vs: &[usize]) {
-    ctx.begin_case(|| case(k, tt, vs));
+fn check_one(ctx: &mut Ctx, sp: &Space<usize>, k: usize, tt: u64, vs: &[usize], foreign: bool) {
+    ctx.begin_case(|| case(k, tt, vs, foreign));
     ctx.count("evaluations", 1);
-    let key = || format!("{TAG} api syms={:?}: f={tt:#x} V={:?}", sp.syms, vs);
+    let key = || format!("{TAG} api syms={:?}{}: f={tt:#x} V={:?}", sp.syms, if foreign { " (operand not interned)" } else { "" }, vs);
     let f = sp.get(tt);
     let env = sp.env.clone();
     let mut want_e = tt;
@@ -67,7 +68,7 @@ fn check_one(ctx: &mut Ctx, sp: &Space<usize>, k: usize, tt: u64, vs: &[usize]) 
     });
     let (e, a, es, as_, dual, single) = match r {
         Err(p) => {
-            ctx.violation(key(), format!("quantification panicked: {p}"), case(k, tt, vs));
+            ctx.violation(key(), format!("quantification panicked: {p}"), case(k, tt, vs, foreign));
             return;
         }
         Ok(x) => x,
@@ -104,19 +105,23 @@ fn check_one(ctx: &mut Ctx, sp: &Space<usize>, k: usize, tt: u64, vs: &[usize]) 
         c.push("V is empty or disjoint from the variables f depends on, but the result is not f".into());
     }
     if !c.is_empty() {
-        ctx.violation(key(), c.join("; "), case(k, tt, vs));
+        ctx.violation(key(), c.join("; "), case(k, tt, vs, foreign));
     }
     ctx.count("distinct_by_construction", 1);
     ctx.sample(|| json!({"f": robdd::show(&f), "V": vs, "exists": robdd::show(&e), "all": robdd::show(&a)}));
 }
 
-fn api_sweep(ctx: &mut Ctx, k: usize, maxlen: usize) {
+fn api_sweep(ctx: &mut Ctx, k: usize, maxlen: usize, foreign: bool) {
     let st = setup(k);
-    let sp = match Space::<usize>::by_interning(&st.syms) {
-        Ok(s) => s,
-        Err(e) => {
-            ctx.violation(format!("{TAG} building operands"), e, case(k, 0, &[]));
-            return;
+    let sp = if foreign {
+        Space::<usize>::by_foreign(&st.syms)
+    } else {
+        match Space::<usize>::by_interning(&st.syms) {
+            Ok(s) => s,
+            Err(e) => {
+                ctx.violation(format!("{TAG} building operands"), e, case(k, 0, &[], false));
+                return;
+            }
         }
     };
     let lists: Vec<Vec<usize>> = lists_upto(st.qvars.len(), maxlen).into_iter().map(|l| l.into_iter().map(|i| st.qvars[i]).collect()).collect();
@@ -125,7 +130,7 @@ fn api_sweep(ctx: &mut Ctx, k: usize, maxlen: usize) {
         for vs in &lists {
             idx += 1;
             if ctx.mine(idx) {
-                check_one(ctx, &sp, k, tt, vs);
+                check_one(ctx, &sp, k, tt, vs, foreign);
             }
         }
     }
@@ -139,7 +144,8 @@ fn quant_alpha() -> Alpha {
             quants.push((ex, l));
         }
     }
-    Alpha { leaves: vec![Ast::var("a"), Ast::var("b"), Ast::var("c"), Ast::True], not: true, bins: vec![Bin::And, Bin::Or, Bin::Implies, Bin::Xor], ite: false, quants, ..Default::default() }
+    // fixed points: a quantified variable may reach the quantifier's body only through the iterate
+    Alpha { leaves: vec![Ast::var("a"), Ast::var("b"), Ast::var("c"), Ast::True, Ast::var("X")], not: true, bins: vec![Bin::And, Bin::Or, Bin::Implies, Bin::Xor], ite: false, quants, fps: vec![(s("X"), false), (s("X"), true)], ..Default::default() }
 }
 
 fn text_sweep(ctx: &mut Ctx) {
@@ -158,7 +164,7 @@ fn text_sweep(ctx: &mut Ctx) {
             fn has_q(a: &Ast) -> bool {
                 match a {
                     Ast::Q(..) => true,
-                    Ast::Not(x) => has_q(x),
+                    Ast::Not(x) | Ast::Fp(_, _, x) => has_q(x),
                     Ast::Bin(_, l, r) => has_q(l) || has_q(r),
                     _ => false,
                 }
@@ -179,10 +185,36 @@ fn text_sweep(ctx: &mut Ctx) {
     }
 }
 
+const EV_ORACLE: Oracle = Oracle { semantic: true, canonical: false };
+
+/// the language's quantifier node on every function of 2 and 3 named variables x every
+/// variable list <= 3 (incl. one variable outside every support), through the real evaluator
+fn evaluator_sweep(ctx: &mut Ctx) {
+    let mut idx = 0u64;
+    for k in [2usize, 3] {
+        let mut es = discover_eval(ctx, k, EV_ORACLE, TAG);
+        let present: Vec<u64> = (0..es.sp.nfun() as u64).filter(|t| es.sp.has(*t)).collect();
+        for vs in index_lists(es.qpool.len(), 3) {
+            for ex in [true, false] {
+                let op = EvOp::Quant(ex, vs.clone());
+                for &a in &present {
+                    idx += 1;
+                    if ctx.mine(idx) {
+                        check_eval(ctx, &mut es, &op, &[a], EV_ORACLE, TAG);
+                        ctx.count("evaluations", 1);
+                    }
+                }
+            }
+        }
+    }
+}
+
 fn run(ctx: &mut Ctx) {
-    api_sweep(ctx, 3, 3);
+    evaluator_sweep(ctx);
+    api_sweep(ctx, 3, 3, false);
+    api_sweep(ctx, 3, 3, true);
     // quick: F_4 with lists <= 2; thorough: lists <= 3
-    api_sweep(ctx, 4, if ctx.thorough() { 3 } else { 2 });
+    api_sweep(ctx, 4, if ctx.thorough() { 3 } else { 2 }, false);
     text_sweep(ctx);
 }
 
@@ -191,11 +223,20 @@ fn replay(ctx: &mut Ctx, c: &Value) {
         replay_text(ctx, TAG, c);
         return;
     }
+    if matches!(c["part"].as_str(), Some("eval-node") | Some("eval-init")) {
+        replay_eval(ctx, c, EV_ORACLE, TAG);
+        return;
+    }
     let k = c["k"].as_u64().unwrap_or(3) as usize;
     let st = setup(k);
     let vs: Vec<usize> = c["vars"].as_array().map(|a| a.iter().map(|x| x.as_u64().unwrap_or(0) as usize).collect()).unwrap_or_default();
+    let foreign = c["foreign"].as_bool().unwrap_or(false);
+    if foreign {
+        check_one(ctx, &Space::<usize>::by_foreign(&st.syms), k, c["f"].as_u64().unwrap_or(0), &vs, true);
+        return;
+    }
     match Space::<usize>::by_interning(&st.syms) {
-        Ok(sp) => check_one(ctx, &sp, k, c["f"].as_u64().unwrap_or(0), &vs),
+        Ok(sp) => check_one(ctx, &sp, k, c["f"].as_u64().unwrap_or(0), &vs, false),
         Err(e) => ctx.violation(format!("{TAG} building operands"), e, c.clone()),
     }
 }
